@@ -175,9 +175,20 @@ class Bench:
         before_sent = len(node.raw_endpoint.sent)
         before_keys = set(ov.network.verified_by_public_key_bin) | {p.public_key.key_to_bin() for p in ov.network.verified_peers}
         esc_before = len(node.raw_endpoint.escaped)
+        self._addr_before = self.peer_addresses()
         node.raw_endpoint.deliver(src, data)
         # handlers may be coroutines: give them the loop once, without letting time pass
         return {"before_sent": before_sent, "before_keys": before_keys, "esc_before": esc_before}
+
+    def peer_addresses(self) -> dict:
+        """
+        What the receiver has on record for its verified peers: key -> addresses (by class) and the preferred one.
+        """
+        out = {}
+        for p in self.ov.network.verified_peers:
+            out[p.public_key.key_to_bin()] = (tuple(sorted((k.__name__, tuple(v)) for k, v in p.addresses.items())),
+                                              tuple(p.address))
+        return out
 
     async def judge(self, src: tuple, data: bytes, case: dict, original: bool = False) -> bool:
         """
@@ -216,6 +227,13 @@ class Bench:
                 self.fail("V3", f"{site_id}:reply:{op.split(':')[0]}", f"the receiver answered (message id {new_sent[0].data[22]}) "
                                                                        f"to a datagram with id {mid} that is not validly signed "
                                                                        f"({op} at {case['pos']})", case)
+            now_addr = self.peer_addresses()
+            moved = [k for k in self._addr_before if k in now_addr and now_addr[k] != self._addr_before[k]]
+            if moved:
+                k0 = moved[0]
+                self.fail("V3", f"{site_id}:peer_entry:{op.split(':')[0]}",
+                          f"a datagram that is not validly signed ({op} at {case['pos']}, from {src}) changed what the receiver "
+                          f"has on record for verified peer {k0[-6:].hex()}: {self._addr_before[k0]} -> {now_addr[k0]}", case)
             now_keys = set(ov.network.verified_by_public_key_bin) | {p.public_key.key_to_bin() for p in ov.network.verified_peers}
             gained = now_keys - marks["before_keys"]
             if gained:
